@@ -39,8 +39,12 @@ VARIANTS = {
     # generic C++ fallbacks: no SSE/AES/int128 macros -> struct based vectors, fenv rounding, 32x32 mulh
     'portable': dict(cc='gcc', cxx='g++', flags=['-O2', '-DNDEBUG', '-fPIC', '-fvisibility=hidden',
                                                   '-frounding-math'] + PORTABLE_U,
-                     skip=['jit_compiler_x86.cpp', 'jit_compiler_x86_static.S', 'assembly_generator_x86.cpp'], no_per_file=True,
-                     extra_src=[os.path.join(VERIF, 'harness', 'portable_stubs.cpp'), os.path.join(VERIF, 'harness', 'portable_shim.cpp')]),
+                     # the x86 JIT sources are compiled as they are (the VM classes reference JitCompilerX86 because RANDOMX_HAVE_COMPILER follows
+                     # __x86_64__); the shim only creates interpreted VMs and caches without RANDOMX_FLAG_JIT, so none of that code runs.
+                     # (An earlier version stubbed the JitCompilerX86 members instead, which broke on a harmless refactoring that moved
+                     # three of them into the header.)
+                     no_per_file=True,
+                     extra_src=[os.path.join(VERIF, 'harness', 'portable_shim.cpp')]),
 }
 
 
@@ -172,7 +176,7 @@ def ensure_portable_so():
     """librx_portable.so: the generic C++ fallback build, only pv_* exported (C17)."""
     lib = ensure_lib('portable')
     d = variant_dir('portable')
-    key = sha(open(os.path.join(VERIF, 'harness', 'portable_shim.cpp'), 'rb').read(), open(os.path.join(VERIF, 'harness', 'portable_stubs.cpp'), 'rb').read())[:10]
+    key = sha(open(os.path.join(VERIF, 'harness', 'portable_shim.cpp'), 'rb').read())[:10]
     so = os.path.join(d, 'librx_portable-%s.so' % key)
     if os.path.exists(so):
         return so
